@@ -591,7 +591,74 @@ def rule_comparisons(ctx):
         ctx.check(R, "comparable_element/reduces-then-signs", t == "val(modulus(elem,field),field)", t, site(MA, ce))
 
 
+def _lin(e):
+    """expression over `field` as a*h + b with field = 2h + 1 (odd prime): returns (a, b) or None.
+    `x / 2` is floor division (BigInt division of non-negative values)."""
+    e = strip(e)
+    k = e["k"]
+    t = render(e).replace(" ", "")
+    if k == "Path" and e["path"] == "field":
+        return (2, 1)
+    m = re.fullmatch(r"(?:BigInt::from\()?(-?\d+)\)?", t)
+    if m:
+        return (0, int(m.group(1)))
+    if k == "Binary" and e["op"] in ("+", "-"):
+        l, r = _lin(e["l"]), _lin(e["r"])
+        if l is None or r is None:
+            return None
+        return (l[0] + r[0], l[1] + r[1]) if e["op"] == "+" else (l[0] - r[0], l[1] - r[1])
+    if k == "Binary" and e["op"] == "/":
+        l, r = _lin(e["l"]), _lin(e["r"])
+        if l is None or r != (0, 2) or l[0] % 2 != 0:
+            return None
+        return (l[0] // 2, l[1] // 2)  # floor((a*h + b) / 2) for even a
+    return None
+
+
+def rule_shift_recursion(ctx, R="C16.6"):
+    ctx.rule(R, "shift_l and shift_r call each other with `field - right` only when `right` is above a threshold, and the callee's own threshold then accepts `field - right`: with field = 2h+1 the two thresholds T (direct case iff right <= T) satisfy T_l + T_r >= 2h, so the mutual recursion has depth at most one")
+    fns = module_fns()
+    T = {}
+    for name, other in (("shift_l", "shift_r"), ("shift_r", "shift_l")):
+        fn = fns.get(name)
+        if fn is None:
+            ctx.missing(R, name)
+            continue
+        rec = [c for c in walk(fn["body"]) if c["k"] == "Call" and c["func"]["k"] == "Path" and last(c["func"]["path"]) == other]
+        selfrec = [c for c in walk(fn["body"]) if c["k"] == "Call" and c["func"]["k"] == "Path" and last(c["func"]["path"]) == name]
+        ctx.check(R, name + "/no-self-recursion", not selfrec, "%d self calls" % len(selfrec), site(MA, fn))
+        if len(rec) != 1:
+            ctx.missing(R, name + "/call-of-" + other, "expected one call, found %d" % len(rec))
+            continue
+        c = rec[0]
+        args = [render(strip(a)).replace(" ", "") for a in c["args"]]
+        ctx.check(R, name + "/recursive-argument", args == ["left", "(field-right)", "field"], "calls %s(%s)" % (other, ", ".join(args)), site(MA, c))
+        conds = [f for f in (conditions_to(fn["body"], c) or [])]
+        thr = None
+        if len(conds) == 1 and conds[0][0] == "if" and strip(conds[0][1])["k"] == "Binary" and strip(conds[0][1])["op"] in ("<=", "<"):
+            b = strip(conds[0][1])
+            l, r = render(strip(b["l"])).replace(" ", ""), _lin(b["r"])
+            pol = conds[0][2]
+            # direct case iff  right <= T ; the recursive call is under the negation of that test
+            if l == "right" and r is not None and not pol:
+                thr = r if b["op"] == "<=" else (r[0], r[1] - 1)
+            # `top < right` / `top <= right` taken positively:  right > top  /  right >= top
+            l2, r2 = _lin(b["l"]), render(strip(b["r"])).replace(" ", "")
+            if thr is None and r2 == "right" and l2 is not None and pol:
+                thr = l2 if b["op"] == "<" else (l2[0], l2[1] - 1)
+        if thr is None:
+            ctx.missing(R, name + "/threshold", "the call of %s is not under a single threshold test on `right`: %s" % (other, [fact_str(f) for f in conds]))
+            continue
+        T[name] = thr
+        ctx.ok(R, name + "/threshold", "direct case iff right <= %d*h%+d  (field = 2h+1)" % thr, site(MA, c))
+    if len(T) == 2:
+        a = T["shift_l"][0] + T["shift_r"][0]
+        b = T["shift_l"][1] + T["shift_r"][1]
+        ctx.check(R, "shift_l+shift_r/terminates", a > 2 or (a == 2 and b >= 0), "T_l + T_r = %d*h%+d, needs >= 2h: otherwise some `right` makes the two functions call each other forever" % (a, b), site(MA, fns["shift_l"]))
+
+
 def run(ctx):
+    rule_shift_recursion(ctx)
     rule_divisors(ctx)
     rule_exponents(ctx)
     rule_canonical(ctx)
